@@ -6,6 +6,7 @@ import (
 	"fmt"
 	"reflect"
 	"sort"
+	"time"
 	"unicode/utf8"
 
 	"github.com/tormoder/fit"
@@ -133,6 +134,24 @@ func DrawFieldVal(d D, fi *fitmodel.FieldInfo, out bool) (fitmodel.Val, bool) {
 		if fi.Array {
 			return fitmodel.Val{}, false
 		}
+		if d.Chance(25, "tzdb") {
+			// the instant carried in a tz-database Location, whose offset
+			// depends on the instant (daylight saving, rule changes)
+			name := tzNames[d.Int(0, len(tzNames)-1, "tzname")]
+			inst := int64(drawTimeSec(d))
+			if d.Chance(50, "tzsummer") {
+				// northern and southern summers of 2009-2024
+				inst = int64(0x24000000 + d.Int(0, 0x1C000000, "tzinst"))
+			}
+			if loc := prof.Location(name); loc != nil {
+				_, off := time.Unix(fitmodel.FitEpochUnix+inst, 0).In(loc).Zone()
+				if w := inst + int64(off); w >= 0 && w <= 0xFFFFFFFE {
+					v := fitmodel.T(fitmodel.FitEpochUnix+inst, off)
+					v.S = "tz:" + name
+					return v, true
+				}
+			}
+		}
 		wall := int64(drawTimeSec(d))
 		off := 0
 		if d.Chance(80, "tzoff") {
@@ -201,6 +220,11 @@ func DrawFieldVal(d D, fi *fitmodel.FieldInfo, out bool) (fitmodel.Val, bool) {
 	}
 	return DrawScalar(d, bt, false), true
 }
+
+// tzNames are tz-database zones with daylight saving (both hemispheres, a
+// 30-minute shift), without it, and with a changed standard offset.
+var tzNames = []string{"America/New_York", "Europe/Oslo", "Australia/Lord_Howe", "Pacific/Auckland", "America/Sao_Paulo",
+	"Asia/Kolkata", "Europe/Lisbon", "Pacific/Apia", "America/St_Johns", "UTC"}
 
 func drawTimeSec(d D) uint32 {
 	switch d.Int(0, 7, "tp") {
